@@ -59,6 +59,53 @@ def make_case(a, tier, idx=0):
     return {'ag': a, 'runs': runs}
 
 
+def singleton_case(a, idx):
+    """fggs.utils.singleton_fgg(factor_graph): each terminal-only rule of the grammar taken as a factor graph of
+    its own; the expected value is that of the one-rule grammar S' -> rhs (computed by the judge)."""
+    import torch, fggs
+    from fggs.utils import singleton_fgg
+    cases = []
+    for ri, r in enumerate(a['rules']):
+        if any(not a['els'][e['lab']]['t'] for e in r['edges']):
+            continue
+        used = {e['lab'] for e in r['edges']}
+        start = '<S>'
+        a1 = {'nls': a['nls'], 'els': {start: {'t': False, 'type': [r['nodes'][j - 1] for j in r['ext']]}, **{t: a['els'][t] for t in used}},
+              'elorder': [start] + sorted(used), 'start': start, 'rules': [dict(r, lhs=start)],
+              'w': {t: a['w'][t] for t in used}, 'wmp': {t: a['wmp'][t] for t in used}}
+        runs = []
+        for kind in ('real', 'log', 'mp', 'bool'):
+            dtype = torch.bool if kind == 'bool' else torch.float64
+            run = {'sr': CARRIER[kind], 'tag': [kind, 'singleton_fgg'], 'out': 'ok', 'res': {}, 'partial': False}
+            try:
+                g, info = AG.build_fgg(a, kind, dtype)
+                rhs = info['rules'][ri].rhs
+                fg = fggs.FactorGraph()
+                for v in rhs.nodes():
+                    fg.add_node(v)
+                for e in rhs.edges():
+                    fg.add_edge(e)
+                fg.ext = rhs.ext
+                for n in a['nls']:
+                    fg.add_domain(fggs.NodeLabel(n), g.domains[n])
+                for t in used:
+                    fg.add_factor(g.get_edge_label(t), g.factors[t])
+                sg = singleton_fgg(fg)
+                with warnings.catch_warnings():
+                    warnings.simplefilter('ignore')
+                    with torch.no_grad():
+                        z = fggs.sum_product(sg, semiring=AG.semiring_for(kind, dtype))
+                if sg.start.name != start:
+                    run['out'] = 'raise:StartNameNotFresh'
+                run['res'][start] = AG.project_tensor(z.to_dense(), kind, dtype)
+            except Exception as e:  # noqa
+                run['out'] = 'raise:' + type(e).__name__
+                run['err'] = str(e)[:160]
+            runs.append(run)
+        cases.append({'ag': a1, 'runs': runs})
+    return cases
+
+
 def gen_tlc(work, consts, o: Outcome):
     cfg = ('INIT Init\nNEXT Next\nINVARIANT Stable\nINVARIANT IsNonRec\nINVARIANT Dump\nCHECK_DEADLOCK FALSE\nCONSTANTS\n' + consts)
     r = run_tlc(work, 'MC_Grammar', cfg, workers=1, heap='4g')
@@ -99,6 +146,9 @@ def run(tier, seed):
     with Scratch() as work:
         ags = cases_for(tier, seed, work, o)
         cases = pmap(_mk, [(a, tier, i) for i, a in enumerate(ags)])
+        single = [c for i, a in enumerate(ags) if i % 4 == 0 for c in singleton_case(a, i)]
+        o.extra['singleton_fgg_cases'] = len(single)
+        cases += single
         verdicts, st, tr, _ = judge_batch(work / 'judge', 'Trace_SumProduct', cases, per_shard_min=20, heap='3g')
         o.states += st
         o.transitions += tr
